@@ -105,6 +105,41 @@ def _poly_case(draw, tier):
 
 
 @st.composite
+def _notch_case(draw, tier):
+    """A history that can enclose a void: a notch is cut into one side of a shape (difference), then a bar is laid across the
+    notch's mouth (union).  When the bar covers the whole mouth the exact union is not simply connected (a ValueError is the
+    documented answer); otherwise it is an ordinary polygon.  Either way the answer must agree with point-wise membership."""
+    w, h = draw(gen.rf(2.0, 5.0)), draw(gen.rf(2.0, 5.0))
+    c = [draw(gen.rf(-3, 3)), draw(gen.rf(-3, 3))]
+    base = dict(kind=draw(st.sampled_from(["box", "box", "ellipse"])), points=draw(st.integers(20, 60)), center=[0.0, 0.0], rot=0, rot_origin=[0.0, 0.0], shift=c)
+    if base["kind"] == "box":
+        base.update(w=w, h=h)
+        edge_x = c[0] + w / 2
+    else:
+        base.update(a=w / 2, b=h / 2)
+        edge_x = c[0] + w / 2
+    bw, bh = draw(gen.rf(0.25, 0.6)) * w, draw(gen.rf(0.15, 0.45)) * h
+    dy = draw(gen.rf(-0.15, 0.15)) * h
+    notch = dict(kind=draw(st.sampled_from(["box", "ellipse"])), points=draw(st.integers(12, 40)), center=[0.0, 0.0], rot=0, rot_origin=[0.0, 0.0],
+                 shift=[edge_x - draw(gen.rf(0.0, 0.2)) * bw, c[1] + dy])
+    if notch["kind"] == "box":
+        notch.update(w=bw, h=bh)
+    else:
+        notch.update(a=bw / 2, b=bh / 2)
+    # the bar: thinner than the notch is deep, placed over the mouth; its height decides whether the mouth is closed completely
+    bar = dict(kind="box", w=draw(gen.rf(0.1, 0.35)) * bw, h=draw(st.sampled_from([0.5, 0.8, 1.2, 1.5, 2.0])) * bh, points=draw(st.integers(12, 40)),
+               center=[0.0, 0.0], rot=0, rot_origin=[0.0, 0.0], shift=[edge_x - draw(gen.rf(0.0, 0.1)) * bw, c[1] + dy + draw(gen.rf(-0.1, 0.1)) * bh])
+    if draw(st.booleans()):
+        bar["reverse"] = True
+    via = st.sampled_from(["method", "operator", "classmethod", "array"])
+    ops = [dict(op="difference", other=notch, via=draw(via), constrained=True),
+           dict(op="union", other=bar, via=draw(via), constrained=False)]
+    trs = [draw(_transform()) for _ in range(draw(st.integers(0, 1)))]
+    return dict(kind="polygon", base=base, ops=ops, transforms=trs, notch=True,
+                grid=dict(n=draw(st.integers(12, 20)), jx=draw(gen.rf(0, 0.4)), jy=draw(gen.rf(0, 0.4)), k=[draw(gen.rf(0.5, 5)) for _ in range(2)]))
+
+
+@st.composite
 def _device_case(draw, tier):
     d = draw(gen.device(terminals=(0, 2), holes=(0, 2), probes=(0, 2, 3), film_kinds=("box", "ellipse", "union"), size=(3.5, 7.0)).filter(gen.valid_device))
     return dict(kind="device", device=d, transforms=[dict(draw(_transform()), inplace=False) for _ in range(draw(st.integers(1, 2)))],
@@ -113,7 +148,7 @@ def _device_case(draw, tier):
 
 
 def strategy(tier):
-    return st.one_of(_poly_case(tier), _poly_case(tier), _poly_case(tier), _device_case(tier))
+    return st.one_of(_poly_case(tier), _poly_case(tier), _poly_case(tier), _notch_case(tier), _device_case(tier))
 
 
 # ------------------------------------------------------------------ oracle helpers
@@ -269,6 +304,8 @@ def check_case(spec):
         if res.violations:
             return res
     res.label(f"ops={len(spec['ops'])}", f"transforms={len(spec['transforms'])}")
+    if spec.get("notch"):
+        res.label("notch + bar history" + (" (accepted)" if len(cur_pts_list) and P is not None and not any(l.startswith("set operation rejected") for l in res.labels) else " (rejected)"))
     reflected = False
     for tr in spec["transforms"]:
         before = P.points.copy()
@@ -310,6 +347,22 @@ def check_case(spec):
         size = max(float(np.ptp(P.points, axis=0).max()), 1e-9)
         if res.violations:
             return res
+    # set operations with no operand ("zero or more"): an independent, equal polygon - never the original itself
+    before = P.points.copy()
+    for opn in ("union", "intersection", "difference"):
+        try:
+            Z = getattr(P, opn)()
+        except Exception as exc:  # noqa: BLE001
+            res.fail("C18.setop_no_operand", f"{opn}() without operands raised {type(exc).__name__}: {exc}")
+            continue
+        if Z is P or np.shares_memory(Z.points, P.points):
+            res.fail("C18.aliasing", f"{opn}() without operands returned the original polygon / shares its vertices")
+        if not np.array_equal(Z.points, before) or not np.array_equal(P.points, before):
+            res.fail("C18.setop_no_operand", f"{opn}() without operands changed the vertices")
+        if Z is not P:
+            Z.translate(0.37, -0.21, inplace=True)
+            if not np.array_equal(P.points, before):
+                res.fail("C18.aliasing", f"moving the result of {opn}() in place moved the original")
     # copy()
     c = P.copy()
     if c is P or np.shares_memory(c.points, P.points) or not np.array_equal(c.points, P.points) or c != P:
